@@ -4,6 +4,9 @@ package secretstore
 
 import (
 	"context"
+	"crypto/sha1"
+	"crypto/sha256"
+	"crypto/sha512"
 	"fmt"
 	"math/rand"
 	"sync"
@@ -90,6 +93,17 @@ func c01Payloads(rng *rand.Rand) [][]byte {
 	if !verifkit.Thorough() {
 		out = append(out, randBytes(rng, 65536)) // one large payload, bit flips sampled
 	}
+	// payloads of 4-9 KiB whose SHA-256 (of the bytes that get signed) happens to decode as a message: content an insider
+	// could present in their place if a signature over a digest were taken for a signature over the bytes
+	found := 0
+	for i := 0; i < 4000 && found < 3; i++ {
+		cand := randBytes(rng, 4100+rng.Intn(5000))
+		d := sha256.Sum256(wrapPayload(cand))
+		if proto.Unmarshal(d[:], &protocoltypes.EncryptedMessage{}) == nil {
+			out = append(out, cand)
+			found++
+		}
+	}
 	return out
 }
 
@@ -106,7 +120,7 @@ func TestVerifC01(t *testing.T) {
 	defer rep.Finish(t)
 	rep.Rule = "per group type (account/contact/multi-member) x payload (0..64 KiB, random/zero/0xff/protobuf-looking) x receiver (other member, sibling device): " +
 		"honest open (with/without CID, re-open), every single-bit flip of envelopes <= 300 bytes (seeded positions beyond; every bit <= 4 KiB in thorough), " +
-		"field substitutions re-boxed under the group secret (device, counter, signature, payload, nonce, cross-group, header/payload mix) and insider forgeries. " +
+		"field substitutions re-boxed under the group secret (device, counter, signature, payload, nonce, cross-group, header/payload mix) and insider forgeries, among them the genuine signature reused over content derived from the signed bytes (digests, prefixes, the inner payload). " +
 		"distinct = (group type, payload index, manipulation id)"
 	rep.Assume("the CID handed to the store is the content hash of the envelope bytes, as in the log (an adversary chooses bytes, not the identifier computed for them)")
 	rep.Assume("manipulated envelopes are opened on a copy of the receiver's persistent state taken before the attempt")
@@ -271,6 +285,25 @@ func TestVerifC01(t *testing.T) {
 				"sig-of-original":       headers.Sig,
 			} {
 				manips = append(manips, manip{"insider/" + name, reboxHeaders(g, &protocoltypes.MessageHeaders{Counter: chainCounter, DevicePk: sDev, Sig: sig}, forgedBox)})
+			}
+			// insider reuses the GENUINE signature of this message for content derived from what was signed (a digest of it,
+			// a prefix, a suffix, the inner payload alone): a signature is valid for exactly the signed bytes, whatever
+			// their size and however an implementation condenses them before signing
+			{
+				signed := wrapPayload(p)
+				h256, h512, h1 := sha256.Sum256(signed), sha512.Sum512(signed), sha1.Sum(signed)
+				p256 := sha256.Sum256(p)
+				derived := map[string][]byte{"sha256": h256[:], "sha512": h512[:], "sha512-first-half": h512[:32], "sha1": h1[:], "sha256-of-inner-payload": p256[:], "inner-payload": p}
+				if len(signed) > 64 {
+					derived["first-32-bytes"], derived["last-32-bytes"], derived["first-half"] = signed[:32], signed[len(signed)-32:], signed[:len(signed)/2]
+				}
+				for name, content := range derived {
+					if sameBytes(content, signed) {
+						continue
+					}
+					box := secretbox.Seal(nil, content, uint64AsNonce(chainCounter), (*[32]byte)(&mk))
+					manips = append(manips, manip{"insider/sig-of-original-over-" + name, reboxHeaders(g, &protocoltypes.MessageHeaders{Counter: chainCounter, DevicePk: sDev, Sig: headers.Sig}, box)})
+				}
 			}
 			// insider re-encrypts the ORIGINAL plaintext for another counter / as T (re-attribution with valid inner box)
 			{
